@@ -109,28 +109,45 @@ theorem mask_congr {ks : List Fld} {v w : Fld → S.Val} (h : ∀ f, ks.contains
   · simp [hf, h f (List.contains_iff_mem.mpr hf)]
   · simp [hf]
 
-theorem supersetHit_sound (l2 : Level2 S) (keys : List Fld) (vals : Fld → S.Val) (ks : List Fld) (wf : WfObj S)
-    (h : supersetHit S l2 keys vals = some (ks, wf)) :
+theorem supersetHit_sound (l2 : Level2 S) (keys : List Fld) (vals : Fld → S.Val) (left : Option Nat) (ks : List Fld)
+    (wf : WfObj S) (h : supersetHit S l2 keys vals left = some (ks, wf)) :
     subsetOf ks keys = true ∧ ∃ l3, (ks, l3) ∈ l2 ∧ (S.valHash (restrict S ks vals), wf) ∈ l3 := by
-  induction l2 with
+  induction l2 generalizing left with
   | nil => simp [supersetHit] at h
   | cons e l2 ih =>
     obtain ⟨ks', l3'⟩ := e
-    simp only [supersetHit] at h
+    have lift : ∀ {left'}, supersetHit S l2 keys vals left' = some (ks, wf) →
+        subsetOf ks keys = true ∧ ∃ l3, (ks, l3) ∈ (ks', l3') :: l2 ∧ (S.valHash (restrict S ks vals), wf) ∈ l3 := by
+      intro left' h'
+      obtain ⟨h1, l3, h2, h3⟩ := ih left' h'
+      exact ⟨h1, l3, List.mem_cons_of_mem _ h2, h3⟩
+    unfold supersetHit at h
     by_cases hs : subsetOf ks' keys = true
     · simp only [hs, if_true] at h
-      cases hl : lookup l3' (S.valHash (restrict S ks' vals)) with
+      cases left with
       | none =>
-        simp only [hl] at h
-        obtain ⟨h1, l3, h2, h3⟩ := ih h
-        exact ⟨h1, l3, List.mem_cons_of_mem _ h2, h3⟩
-      | some wf' =>
-        simp only [hl, Option.some.injEq, Prod.mk.injEq] at h
-        obtain ⟨rfl, rfl⟩ := h
-        exact ⟨hs, l3', List.mem_cons_self, lookup_mem _ _ _ hl⟩
+        simp only at h
+        cases hl : lookup l3' (S.valHash (restrict S ks' vals)) with
+        | none => rw [hl] at h; exact lift h
+        | some wf' =>
+          rw [hl] at h
+          simp only [Option.some.injEq, Prod.mk.injEq] at h
+          obtain ⟨rfl, rfl⟩ := h
+          exact ⟨hs, l3', List.mem_cons_self, lookup_mem _ _ _ hl⟩
+      | some n =>
+        cases n with
+        | zero => simp only at h; exact lift h
+        | succ n =>
+          simp only at h
+          cases hl : lookup l3' (S.valHash (restrict S ks' vals)) with
+          | none => rw [hl] at h; exact lift h
+          | some wf' =>
+            rw [hl] at h
+            simp only [Option.some.injEq, Prod.mk.injEq] at h
+            obtain ⟨rfl, rfl⟩ := h
+            exact ⟨hs, l3', List.mem_cons_self, lookup_mem _ _ _ hl⟩
     · simp only [hs] at h
-      obtain ⟨h1, l3, h2, h3⟩ := ih (by simpa using h)
-      exact ⟨h1, l3, List.mem_cons_of_mem _ h2, h3⟩
+      exact lift (by simpa using h)
 
 /-- What a correct `construct` call returns: a workflow indistinguishable from the constructor's own result on the task's
     current non-lazy values, or the constructor's exception. -/
@@ -176,12 +193,12 @@ theorem construct_sound (hcf : ClosureFree S) (hinj : HashInj S) (hpar : LazyPar
     exact ⟨wf, rfl, by rw [hw, hm], by rw [hw, hm]⟩
   | none =>
     simp only
-    cases hsup : supersetHit S ((lookup cache (S.typeHash c)).getD []) (keysOf lazy) vals with
+    cases hsup : supersetHit S ((lookup cache (S.typeHash c)).getD []) (keysOf lazy) vals S.window with
     | some p =>
       obtain ⟨ks, wf⟩ := p
       simp only
       refine ⟨hinv, ?_⟩
-      obtain ⟨hsub, l3, hl3, hwf⟩ := supersetHit_sound S _ _ _ _ _ hsup
+      obtain ⟨hsub, l3, hl3, hwf⟩ := supersetHit_sound S _ _ _ _ _ _ hsup
       obtain ⟨l2, hl2, hy⟩ := getD_lookup_mem _ _ _ hl3
       obtain ⟨c', vals', g', hth, hvh, hct, hw⟩ := hinv _ _ hl2 _ _ hy _ _ hwf
       subst hw
